@@ -32,6 +32,7 @@ class Explorer:
         self.solver = z3.Solver()
         self.trace, self.prefix, self.pending, self.pc = [], [], [], []
         self.labels, self.prefix_labels = [], []
+        self.shard, self.shard_depth, self._choices = None, 10, []
         self.obligations = []  # (name, condition) collected on the current path
         self.queries = {"sat": 0, "unsat": 0, "unknown": 0}
         self.solver_time = 0.0
@@ -49,6 +50,7 @@ class Explorer:
             self.solver.set("timeout", TIMEOUT_MS)
         self.trace, self.pc, self.obligations = [], [], []
         self.labels = []
+        self._choices = []
         self.fresh = 0
         from . import dist
 
@@ -126,6 +128,7 @@ class Explorer:
         self.trace.append(d)
         self.labels.append(lab)
         self.assume(c if d else z3.Not(c))
+        self._shard_step(d)
         return d
 
     def choose(self, n):
@@ -143,7 +146,20 @@ class Explorer:
             d = 0
         self.trace.append(d)
         self.labels.append(("choose", n))
+        self._shard_step(d)
         return d
+
+    def _shard_step(self, d):
+        if self.shard is None:
+            return
+        self._choices.append(int(d))
+        if len(self._choices) == self.shard_depth:
+            i, nsh = self.shard
+            key = 0
+            for c_ in self._choices:
+                key = (key * 1000003 + c_ * 7919 + 13) % 2147483647
+            if (key // 7) % nsh != i:
+                raise PathAbort()  # this subtree belongs to another shard (work split over worker processes)
 
     def concretize_int(self, x, lo, hi):
         """fork until the symbolic integer x is a python int in [lo, hi)"""
